@@ -1,5 +1,5 @@
 """C05 (MAC family: MacTrace.tla)."""
-from . import macfam, core, purefn
+from . import macfam, core, purefn, mcdata
 import glob, os
 PID = "C05"
 
@@ -39,8 +39,14 @@ def run():
     return macfam.run(PID, [f"hist={40 if t else 4}", f"steps={70 if t else 45}", "profile=fcnt"],
         "downlink accepted/rejected differently from 'authentic and fresh'",
         'seeded random histories (9 regions x nb/async/async+ClassC) dominated by downlinks of every class: fresh (gaps 1, 2..200, 16384), replayed, stale, far-future (gap > 16384), bit-flipped, foreign-key, other-address, random, oversize; Codec.tla decides authenticity, Mac!NextFcnt freshness; every delivery, counter advance, response and queued answer is compared',
-        macfam.COMMON_ASSUMPTIONS, mc=[("MCFcnt.tla", "MCFcnt.cfg", {"workers": 4})], extra=[arithmetic, lemma])
+        macfam.COMMON_ASSUMPTIONS, mc=[("MCFcnt.tla", "MCFcnt.cfg", {"workers": 4})], extra=[arithmetic, lemma,
+               # beyond the default build: the multicast data path (cargo feature `multicast`) under McTrace.tla
+               mcdata.extra(PID)])
 
 
 def replay(path):
+    import json
+    with open(path) as f:
+        if json.load(f).get("mc"):
+            return mcdata.replay(PID, path)
     return macfam.replay(PID, path)
